@@ -160,6 +160,10 @@ async fn start_streaming<
     };
 
     if let Some(msg) = extra_message {
+        // The response to a submit is sent only after the journal is flushed. The listener is
+        // already registered at this point, so events of the job that are emitted while the flush
+        // is awaited (even the completion of the job) are not missed.
+        senders.events.flush_journal().await;
         let _ = tx.send(msg).await;
     }
 
@@ -208,9 +212,6 @@ pub async fn client_rpc_loop<
                 let response = match message {
                     FromClientMessage::Submit(msg, stream_opts) => {
                         let response = submit::handle_submit(&state_ref, senders, msg);
-                        if !response.is_error() {
-                            senders.events.flush_journal().await;
-                        };
                         if let Some(mut stream_opts) = stream_opts
                             && let ToClientMessage::SubmitResponse(SubmitResponse::Ok {
                                 job, ..
@@ -221,6 +222,8 @@ pub async fn client_rpc_loop<
                                 s.insert(job.info.id);
                                 stream_opts.filter.set_jobs(s);
                             }
+                            // The journal is flushed inside `start_streaming`, after the listener
+                            // has been registered
                             start_streaming(
                                 tx,
                                 rx,
@@ -232,6 +235,9 @@ pub async fn client_rpc_loop<
                             .await;
                             break;
                         }
+                        if !response.is_error() {
+                            senders.events.flush_journal().await;
+                        };
                         response
                     }
                     FromClientMessage::JobInfo(msg, stream_opts) => {
